@@ -184,9 +184,9 @@ func classify(nat nativeResult, bare, con vmOutcome, ret ty) (sig, detail string
 	if bare.leftover > 0 {
 		// compiled code entered a catch block with items of unwound code still
 		// on the evaluation stack
-		if !nat.panicked && bare.fault == "" && bare.n == 1+bare.leftover && bare.valOK && bare.val == nat.val &&
+		if !nat.panicked && bare.fault == "" && bare.n > 1 && bare.valOK && bare.val == nat.val &&
 			strings.Contains(con.fault, "invalid return values count") {
-			return sigLeftover, fmt.Sprintf("Go returns %s; bare VM halts with the same value on top of %d stale items; as a contract method: %s", nat.val, bare.leftover, con.fault)
+			return sigLeftover, fmt.Sprintf("Go returns %s; bare VM halts with the same value on top of %d stale items; as a contract method: %s", nat.val, bare.n-1, con.fault)
 		}
 		return sigLeftoverLater, fmt.Sprintf("Go: %s; bare VM: %s; contract: %s (%d stale items at a catch block)", natStr(nat), outStr(bare), outStr(con), bare.leftover)
 	}
